@@ -4,12 +4,13 @@ SRC = 'C13_heaps.cpp'
 def queries():
     qs = []
     for ar in (1, 2, 3, 4, 8):
-        for h in (3, 4, 5, 6):
+        for h in (2, 3, 4, 5, 6):
             quick = (h == 3 and ar in (2, 3))
+            quick_addr = (h == 2 and ar in (2, 3))   # measured: the addressable heap at h = 3 needs > 15 min once it holds
             qs.append(Query('dary_a%d_h%d' % (ar, h), SRC, 'h_daryheap', 'DAryHeap<uint8_t, arity %d>, %d symbolic operations (push, pop, extract_top, build_heap of <= 3 keys (both overloads), clear, update_all) + drain, all 8-bit keys' % (ar, h),
                             defs=['ARITY=%d' % ar, 'H=%d' % h], ll2c=['--alloc-cap', '16'], tiers=('quick', 'thorough') if quick else ('thorough',), timeout=900 if quick else 3600, weight=h * 2))
             qs.append(Query('addr_a%d_h%d' % (ar, h), SRC, 'h_addrheap', 'DAryAddressableIntHeap<uint8_t, arity %d, external priority table>, keys 0..5, %d symbolic operations (push, pop, extract_top, remove, update after priority change, build_heap on empty and non-empty heap, clear)' % (ar, h),
-                            defs=['ARITY=%d' % ar, 'H=%d' % h], ll2c=['--alloc-cap', '16'], tiers=('quick', 'thorough') if quick else ('thorough',), timeout=900 if quick else 3600, weight=h * 3))
+                            defs=['ARITY=%d' % ar, 'H=%d' % h], ll2c=['--alloc-cap', '16'], tiers=('quick', 'thorough') if quick_addr else ('thorough',), timeout=1800 if quick_addr else 7200, weight=h * 3))
     qs.append(Query('dary_a2_h3_gt', SRC, 'h_daryheap', 'DAryHeap arity 2, comparator >, 3 symbolic operations', defs=['ARITY=2', 'H=3', 'CMP_GREATER'], tiers=('thorough',), timeout=3600))
     qs.append(Query('addr_a2_h3_growth', SRC, 'h_addrheap', 'addressable heap arity 2 without reserve (std::vector growth paths live), 3 symbolic operations', defs=['ARITY=2', 'H=3', 'NORESERVE'], tiers=('thorough',), timeout=3600))
     qs.append(Query('dary_a2_h3_growth', SRC, 'h_daryheap', 'DAryHeap arity 2 without pre-reserved capacity (std::vector growth paths live), 3 symbolic operations', defs=['ARITY=2', 'H=3', 'NORESERVE'], tiers=('thorough',), timeout=3600))
